@@ -1391,6 +1391,13 @@ func (s *SecureChannel) nextRequestID() uint32 {
 	return s.requestID
 }
 
+// Disconnected returns a channel which is closed when the secure channel
+// has stopped receiving because the connection has been lost or the channel
+// has been closed.
+func (s *SecureChannel) Disconnected() <-chan struct{} {
+	return s.disconnected
+}
+
 // Close closes an existing secure channel
 func (s *SecureChannel) Close() (err error) {
 	// https://github.com/gopcua/opcua/pull/470
